@@ -110,6 +110,14 @@ def run(unit, only=None, timeout=1500):
         info = "witness driver ran %s test fn(s); %d failing input(s)" % (ran.group(1) if ran else "?", len(ws_found))
         if stats:
             info += "; " + json.dumps(stats)
+        # where the caught panics happened (drivers print `PANICLOC <message>` from their panic hook)
+        plocs = []
+        for ln in out.split("\n"):
+            i = ln.find("PANICLOC ")
+            if i >= 0 and ln[i + 9:] not in plocs:
+                plocs.append(ln[i + 9:])
+        if plocs and ws_found:
+            info += "; panic messages: " + json.dumps(plocs[:5])
         if re.search(r"test result: FAILED|[1-9]\d* failed;", out) and not ws_found:
             info = "witness driver did not compile against the current tree or its own test failed: " + out[-400:]
         if "error: could not compile" in out or "error[E" in out:
